@@ -5,9 +5,10 @@
    -- and per Truncate call of a rewind -- None = done, Some _ = the call fails or the writer has no
    Truncate method) and theories/Fault.v (operations, sticky write error, acknowledged blocks, wf_final).
    kn: 0 blockstore.ReadWrite, 1 / 2 storage on a WriterAt (readable / write-only), 3 storage on a
-   plain io.Writer.  [sticky kn s] = the store's sticky write error (writeErr) is set. *)
-From GoCar Require Import Bytes Varint Cid Header Frame V2Header Index Store Fault.
-From GoCarProofs Require Import StoreInv FaultWf FaultMain.
+   plain io.Writer, 4 storage on a WriterAt without a Truncate method ([fopen kn] opens the target).
+   [sticky kn s] = the store's sticky write error (writeErr) is set. *)
+From GoCar Require Import Bytes Varint Cid Header Frame V2Header Index Store StoreSpec Fault.
+From GoCarProofs Require Import StoreInv FaultWf FaultMain FaultRead.
 
 (* (a) For EVERY state (reachable or not), operation and fault script: if an injected fault was
    consumed during the operation (a write call returned an error, with or without a short write),
@@ -26,7 +27,7 @@ Theorem C16_failed_put_changes_nothing :
   forall (hdrdec : bytes -> option (list bytes * N)) kn o nilroots roots faults ops s0 sn tr c d s' out,
     base_fits o -> hdr_ok nilroots roots ->
     forallb (op_okb kn) ops = true -> ops_small ops -> blk_small (c, d) ->
-    open_new (kind_of kn) o nilroots roots faults = Ok s0 ->
+    fopen kn o nilroots roots faults = Ok s0 ->
     frun hdrdec kn s0 ops = (sn, tr) ->
     fstep hdrdec kn sn (FPut c d) = (s', out) -> is_err out = true ->
     ws_idx s' = ws_idx sn /\ (ws_file s' = ws_file sn \/ sticky kn s' = true).
@@ -57,7 +58,7 @@ Theorem C16_no_poison :
   forall (hdrdec : bytes -> option (list bytes * N)) kn o nilroots roots faults pre op s0 sn tr,
     hdr_ok nilroots roots ->
     forallb (op_okb kn) (pre ++ [op]) = true -> ops_small (pre ++ [op]) ->
-    open_new (kind_of kn) o nilroots roots faults = Ok s0 ->
+    fopen kn o nilroots roots faults = Ok s0 ->
     frun hdrdec kn s0 (pre ++ [op]) = (sn, tr) ->
     is_finalize op = true -> snd (last tr (s0, ONil)) = ONil ->
     51 + w_dpad o + w_ipad o
@@ -73,7 +74,7 @@ Theorem C16_carv1_complete_at_every_moment :
   forall (hdrdec : bytes -> option (list bytes * N)) kn o nilroots roots faults ops s0 sn tr,
     base_fits o -> hdr_ok nilroots roots ->
     forallb (op_okb kn) ops = true -> ops_small ops ->
-    open_new (kind_of kn) o nilroots roots faults = Ok s0 ->
+    fopen kn o nilroots roots faults = Ok s0 ->
     frun hdrdec kn s0 ops = (sn, tr) ->
     w_v1 o = true -> sticky kn sn = false ->
     wf_final (ws_file sn) = Some (roots, acked o nilroots roots ops (map obs_of tr)).
@@ -85,13 +86,35 @@ Theorem C16_carv1_complete_after_successful_put :
   forall (hdrdec : bytes -> option (list bytes * N)) kn o nilroots roots faults pre op s0 sn tr,
     base_fits o -> hdr_ok nilroots roots ->
     forallb (op_okb kn) (pre ++ [op]) = true -> ops_small (pre ++ [op]) ->
-    open_new (kind_of kn) o nilroots roots faults = Ok s0 ->
+    fopen kn o nilroots roots faults = Ok s0 ->
     frun hdrdec kn s0 (pre ++ [op]) = (sn, tr) ->
     w_v1 o = true -> (exists c d, op = FPut c d) \/ (exists bs, op = FPutMany bs) ->
     snd (last tr (s0, ONil)) = ONil ->
     wf_final (ws_file sn) = Some (roots, acked o nilroots roots (pre ++ [op]) (map obs_of tr)).
 Proof. exact v1_complete_after_successful_put. Qed.
 Print Assumptions C16_carv1_complete_after_successful_put.
+
+(* (d') Refinement to the abstract map.  After ANY history under any fault script -- failed writes,
+   failed truncations, failed Finalize calls, the sticky error set or not, finalized or not -- every
+   read operation (Has, Get, GetSize, AllKeysChan; [spec_query]) leaves the state alone and answers
+   exactly as the reference map of C04 (StoreSpec.v: m_has, m_get, m_getsize, m_keys) holding the
+   acknowledged blocks and the store's closed flag.  Together with (c) (what Finalize leaves in the
+   file) this is the no-poisoning property as a refinement: whatever the faults did, the store is
+   indistinguishable from the map of the acknowledged puts.  [puts_ok] is C04's side condition (CIDs
+   go-cid produces, sections within MaxAllowedSectionSize). *)
+Theorem C16_reads_refine_map :
+  forall (hdrdec : bytes -> option (list bytes * N)) kn o nilroots roots faults ops s0 sn tr,
+    hdr_ok nilroots roots ->
+    forallb (op_okb kn) ops = true -> ops_small ops -> puts_ok o ops ->
+    fopen kn o nilroots roots faults = Ok s0 ->
+    frun hdrdec kn s0 ops = (sn, tr) ->
+    51 + w_dpad o + w_ipad o
+       + blen (fpayload nilroots roots (acked o nilroots roots ops (map obs_of tr))) < two63 ->
+    forall q r,
+      spec_query kn o (mkm (acked o nilroots roots ops (map obs_of tr)) (ws_closed sn) (ws_finalized sn)) q = Some r ->
+      fstep hdrdec kn sn q = (sn, r).
+Proof. exact reads_refine_map. Qed.
+Print Assumptions C16_reads_refine_map.
 
 (* (e) Why the fix was needed: with the Put of the unchanged code (put_one_v0: the writer stays where
    the failing call left it) a CID write that fails after the length varint got out is followed by
